@@ -24,7 +24,7 @@ const rule = "a reachable CL pool state is produced by a generated prefix of the
 func coin(d string, a *big.Int) sdk.Coin { return sdk.NewCoin(d, osmomath.NewIntFromBigInt(a)) }
 
 func TestPropSwapCurve(t *testing.T) {
-	drv.Check(t, drv.Cfg{Name: "cl-swap-curve", Rule: rule, Quick: 300, Thorough: 15000, Steps: 12, TSteps: 25}, func(rt *rapid.T, c *drv.Case) {
+	drv.Check(t, drv.Cfg{Name: "cl-swap-curve", Rule: rule, Quick: 300, Thorough: 8000, Steps: 12, TSteps: 25}, func(rt *rapid.T, c *drv.Case) {
 		s := clsim.New(rt, t)
 		ch := s.C
 		// trader amounts == pool amounts
